@@ -455,7 +455,10 @@ func init() {
 					// a websocket peer that completes the websocket upgrade and stalls inside the session handshake
 					wc, _, err := websocket.DefaultDialer.Dial("ws://"+srv+"/ws", nil)
 					if err != nil {
-						return []Tok{TW("setup"), TW("stall-dial")}
+						if sp == 0 {
+							return []Tok{TW("setup"), TW("stall-dial")}
+						}
+						break // the endpoint already turns peers away: the well-behaved clients below will show it
 					}
 					defer wc.Close()
 					if stall == "upgraded-halfline" {
